@@ -2,7 +2,8 @@
 // bmvh/basmdump) for the independent validator in the Lean oracle.
 //
 //	CASE <n> <kind> mustfail=<0|1>
-//	F <what was assembled>
+//	F <what was assembled>                (`F S <source, line breaks written \n>` for generated sources)
+//	FS <text of the file set>             (files mode: the oracle reads the cpdef / ioatt lines)
 //	R ok | R err <class> <stage>
 //	M/C/W/D/II/IO/LK/E                    the emitted machine
 //
@@ -12,9 +13,11 @@
 //	c16 lib <root> <dyn|nodyn>               basm on every *.basm under <root>, each one standalone
 //	c16 files <kind> <dyn|nodyn> <minws|-> f1.basm f2.basm ...   basm on a file set (output of neuralbond / bmqsim + library)
 //	c16 text <file>                          basm on one source (replay)
+//	c16 json <kind> <what> <bm.json>         a machine saved by a front-end CLI (bondgo -save-bondmachine, ...)
 package main
 
 import (
+	"encoding/json"
 	"fmt"
 	"os"
 	"path/filepath"
@@ -30,6 +33,9 @@ import (
 
 var out = basmdump.Protocol()
 
+// text of the assembled file set (files mode): sent as `FS <text>` so that the oracle can read its cpdef / ioatt lines
+var fileSetText string
+
 func report(id int, kind string, mustFail bool, what string, bm *bondmachine.Bondmachine, stage string, err error) {
 	mf := 0
 	if mustFail {
@@ -37,6 +43,9 @@ func report(id int, kind string, mustFail bool, what string, bm *bondmachine.Bon
 	}
 	out.Line("CASE %d %s mustfail=%d", id, kind, mf)
 	out.Line("F %s", what)
+	if fileSetText != "" {
+		out.Line("FS %s", strings.ReplaceAll(strings.TrimRight(fileSetText, "\n"), "\n", "\\n"))
+	}
 	if err != nil {
 		out.Line("R err %s %s", basmdump.ErrClass(err), stage)
 	} else {
@@ -51,7 +60,7 @@ func report(id int, kind string, mustFail bool, what string, bm *bondmachine.Bon
 func main() {
 	defer out.Flush()
 	if len(os.Args) < 2 {
-		fmt.Fprintln(os.Stderr, "usage: c16 gen <n> | lib <root> <dyn|nodyn> | files <kind> <dyn|nodyn> <minws|-> f... | text <file>")
+		fmt.Fprintln(os.Stderr, "usage: c16 gen <n> | lib <root> <dyn|nodyn> | files <kind> <dyn|nodyn> <minws|-> f... | text <file> | json <kind> <what> <bm.json>")
 		os.Exit(2)
 	}
 	switch os.Args[1] {
@@ -94,11 +103,31 @@ func main() {
 		names := make([]string, len(files))
 		for i, f := range files {
 			names[i] = filepath.Base(f)
+			if b, e := os.ReadFile(f); e == nil {
+				fileSetText += string(b) + "\n"
+			}
 		}
 		report(0, kind, false, strings.Join(names, " "), bm, stage, err)
 	case "text":
 		b, _ := os.ReadFile(os.Args[2])
 		bm, stage, err := basmdump.Assemble(string(b), basmdump.Options{DisableDynamic: true})
-		report(0, "text", false, os.Args[2], bm, stage, err)
+		report(0, "text", false, "S "+strings.ReplaceAll(strings.TrimRight(string(b), "\n"), "\n", "\\n"), bm, stage, err)
+	case "json":
+		b, err := os.ReadFile(os.Args[4])
+		var bm *bondmachine.Bondmachine
+		if err == nil {
+			var bmj bondmachine.Bondmachine_json
+			if err = json.Unmarshal(b, &bmj); err == nil {
+				func() {
+					defer func() {
+						if x := recover(); x != nil {
+							err = fmt.Errorf("panic: %v", x)
+						}
+					}()
+					bm = (&bmj).Dejsoner()
+				}()
+			}
+		}
+		report(0, os.Args[2], false, os.Args[3], bm, "load", err)
 	}
 }
